@@ -43,6 +43,7 @@ type Engine struct {
 	prepOnce           sync.Once
 	Tier               string
 	SeqGo              bool     // run go statements synchronously at the spawn point
+	LateGo             bool     // go statements run when the spawner blocks on a channel receive (harness flag "latego")
 	TrackLocks         bool     // track sync.Mutex/RWMutex state per path (harness flag "locks")
 	MapOrders          []string // functions (name substrings) whose small map ranges run in every order
 }
@@ -471,12 +472,37 @@ func (it *permIter) next() tuple {
 	return tuple{false, nil, nil}
 }
 
+// pendingGo is a goroutine spawned under the "latego" mode and not yet run.
+type pendingGo struct {
+	fn   value
+	args []value
+	pos  token.Pos
+}
+
+// runLateGo runs the oldest pending goroutine to completion; false if none.
+func (i *interpreter) runLateGo() bool {
+	if i.ps == nil || len(i.ps.lateGo) == 0 {
+		return false
+	}
+	g := i.ps.lateGo[0]
+	i.ps.lateGo = i.ps.lateGo[1:]
+	i.ps.inLateGo++
+	defer func() { i.ps.inLateGo-- }()
+	call(i, nil, g.pos, g.fn, g.args)
+	return true
+}
+
 func (i *interpreter) goStmt(fr *frame, instr *ssa.Go, fn value, args []value) {
 	if i.ps != nil {
 		i.ps.goStmts++
 	}
 	if i.w.e.SeqGo || syncGo(fr.fn) {
 		call(i, nil, instr.Pos(), fn, args)
+		return
+	}
+	if i.w.e.LateGo && i.ps != nil {
+		// run when the spawning thread of execution blocks on a channel
+		i.ps.lateGo = append(i.ps.lateGo, pendingGo{fn: fn, args: args, pos: instr.Pos()})
 		return
 	}
 	if i.w.e.Cfg.Verbose {
